@@ -498,6 +498,10 @@ func GenConcurrent(seed uint64, pool *Pool) *Plan {
 func init() {
 	register(&Property{
 		ID: "C20", Level: "exploration", EvalCounter: "concurrent_results_compared",
+		// process-level state inside the library (a cache, lazy initialisation) legitimately changes how many instrumented
+		// functions a second execution in the same process runs, hence its schedule; determinism across processes is
+		// checked by `bin/check selftest-determinism C20`
+		NoRecheck: true,
 		Rule: "2-6 tasks (real goroutines, exactly one runs at a time) issue 3-10 calls each against ONE shared parser, applier, composer, transformer, document handler, VDR, " +
 			"version provider, namespace provider and client registry; at every rewriter-inserted point (each function entry of pkg/**, each Lock / RLock / Unlock) a seeded " +
 			"schedule picks the next task, tasks whose TryLock fails are parked until an unlock. Oracles: result == result of the same call made alone beforehand; registry " +
